@@ -228,6 +228,10 @@ def BaseCookieSessionFactory(
                     # since the value is not necessarily signed, we have
                     # to unpack it a little carefully
                     rval, cval, sval = value
+                    if not isinstance(sval, dict):
+                        # a state that is not a mapping is as malformed as
+                        # a stamp that is not a number
+                        raise TypeError('session state is not a mapping')
                     renewed = float(rval)
                     created = float(cval)
                     state = sval
